@@ -80,3 +80,44 @@ pub open spec fn unit_hdr_size(fmt: crate::common::Format, version: u16, has_typ
     il + 2 + word_size(fmt) + 1 + (if version == 5 { 1nat } else { 0nat })
         + (if has_type { 8 + word_size(fmt) } else if has_dwo_id { 8 } else { 0 })
 }
+
+/// the view `v` advanced by `n` bytes
+pub open spec fn advanced(v: RView, n: nat) -> RView {
+    RView { root: v.root, start: v.start + n, len: (v.len - n) as nat, be: v.be }
+}
+
+// ---- abbreviation declarations, DWARF 5 section 7.5.3:
+//   declaration := uleb code (!= 0)  uleb tag  u8 children (DW_CHILDREN_no 0 | DW_CHILDREN_yes 1)  attribute-spec*  (0, 0)
+//   attribute-spec := uleb name  uleb form  [sleb value   if form == DW_FORM_implicit_const (0x21)]
+/// one attribute specification
+pub ghost struct ASpec { pub name: nat, pub form: nat, pub ic: int }
+
+/// the attribute specification encoded at offset p
+pub open spec fn aspec_at(v: RView, p: int) -> ASpec {
+    let p1 = p + v.leb_len(p);
+    let p2 = p1 + v.leb_len(p1);
+    let form = v.uleb(p1);
+    ASpec { name: v.uleb(p), form, ic: if form == 0x21 { v.sleb(p2) } else { 0 } }
+}
+/// its encoded size
+pub open spec fn aspec_size(v: RView, p: int) -> nat {
+    let p1 = p + v.leb_len(p);
+    let p2 = p1 + v.leb_len(p1);
+    ((p2 - p) + (if v.uleb(p1) == 0x21 { v.leb_len(p2) } else { 0 })) as nat
+}
+pub open spec fn aspec_end_marker(a: ASpec) -> bool { a.name == 0 && a.form == 0 }
+
+/// the attribute specifications of a declaration whose list starts at offset p (terminator excluded)
+pub open spec fn aspecs(v: RView, p: int) -> Seq<ASpec>
+    decreases v.len - p
+{
+    if p >= v.len || aspec_end_marker(aspec_at(v, p)) || aspec_size(v, p) == 0 { Seq::empty() }
+    else { seq![aspec_at(v, p)] + aspecs(v, p + aspec_size(v, p)) }
+}
+/// encoded size of that list including the (0, 0) terminator
+pub open spec fn aspecs_size(v: RView, p: int) -> nat
+    decreases v.len - p
+{
+    if p >= v.len || aspec_end_marker(aspec_at(v, p)) || aspec_size(v, p) == 0 { aspec_size(v, p) }
+    else { aspec_size(v, p) + aspecs_size(v, p + aspec_size(v, p)) }
+}
